@@ -33,7 +33,7 @@ var c12Names = []c12Name{
 	{".min.js", "js"}, {".v2.txt", ""}, {".bundle.css.twig", "css"}, {".js.html", "html"}, {".d/x.js", "js"}, {".html/y.txt", ""},
 }
 
-const c12Positions = 31
+const c12Positions = 37
 
 // inline sources (the template name is the source) ending in text that looks like a file extension
 var c12InlineSuffix = map[int]string{2: "v1.0 e.g. end", 3: " see notes.txt", 4: " app.js", 5: " x.css.twig"}
@@ -147,6 +147,19 @@ func c12ScenarioX(pos int, ext, E string) (tpls map[string]string, main string, 
 		tpls[main] = "{% from '" + t("forms") + "' import m %}A{{ m(x, o, c)|raw }}Z"
 		tpls[t("forms")] = "{% extends '" + t("base") + "' %}{% block b %}{% endblock %}{% macro m(x, o, c) %}" + inner + "{% endmacro %}"
 		tpls[t("base")] = "{% block b %}x{% endblock %}"
+	// loops with an inline condition (their body hangs below an if node in the tree), key / value loops, deeper nestings
+	case 31:
+		tpls[main] = "A{% for i in [1] if true %}" + inner + "{% endfor %}Z"
+	case 32:
+		tpls[main] = "A{% for i in [] if true %}n{% else %}" + inner + "{% endfor %}Z"
+	case 33:
+		tpls[main] = "A{% for k, v in {'a': 1} %}" + inner + "{% endfor %}Z"
+	case 34:
+		tpls[main] = "A{% if true %}{% for i in [1] %}{% if false %}n{% elseif false %}n{% else %}" + inner + "{% endif %}{% endfor %}{% endif %}Z"
+	case 35:
+		tpls[main] = "A{% for i in [1] if true %}{% for k, j in [1] if j %}" + inner + "{% endfor %}{% endfor %}Z"
+	case 36:
+		tpls[main] = "A{% block b %}{% for i in [1, 2] if i > 1 %}{% if i %}" + inner + "{% endif %}{% endfor %}{% endblock %}Z"
 	case 28: // the same name at two nesting levels of embeds
 		tpls[main] = "A{% embed '" + t("emb") + "' %}{% block b %}{% embed '" + t("emb") + "' %}{% block b %}" + inner + "{% endblock %}{% endembed %}{% endblock %}{% endembed %}Z"
 		tpls[t("emb")] = "{% block b %}x{% endblock %}"
@@ -275,6 +288,10 @@ var c12Carriers = []func() stick.Value{
 // c12InlineSize: an inline template (the source is its own name, served by the StringLoader of twig.New(nil)) is html
 // whatever its size and layout: n bytes of padding inside the print's delimiters (blanks / line breaks), in front of the
 // print or behind it, and text that ends like a file name (" notes.txt", ".js", ".css.twig", ".html_attr") at the end.
+// c12BracePrefix: template text (and what it renders as) whose braces open no delimiter
+var c12BracePrefix = [][2]string{{"body { color: red } ", "body { color: red } "}, {"{ \"k\": 1 } ", "{ \"k\": 1 } "}, {"if (a) { ", "if (a) { "}, {"}{ ", "}{ "}, {"{", "{"},
+	{"a{b{c ", "a{b{c "}, {"{ {% if true %}{% endif %}", "{ "}, {"{}{# c #}", "{}"}, {"{ }.x{ ", "{ }.x{ "}, {"{\n", "{\n"}}
+
 func c12InlineSize(pi, padKind, n, si int) core.Result {
 	payload := c12Payloads[pi]
 	suffix := []string{"", " see notes.txt", " app.js", " x.css.twig", ".url", ".txt"}[si]
@@ -293,6 +310,10 @@ func c12InlineSize(pi, padKind, n, si int) core.Result {
 	case 3:
 		pad = strings.Repeat("p", n)
 		src = "AQ{{ x }}QZ" + pad + suffix
+	case 5: // text with braces that open no delimiter (a style rule, a JSON object, a function body) in front of the first tag
+		pad = c12BracePrefix[n][0]
+		src = pad + "AQ{{ x }}QZ" + suffix
+		pad = c12BracePrefix[n][1]
 	case 4: // a long list laid out one element per line inside the last tag
 		var els []string
 		for i := 0; i < n/4+1; i++ {
@@ -309,7 +330,7 @@ func c12InlineSize(pi, padKind, n, si int) core.Result {
 	}
 	want := "AQ" + escape.HTML(payload) + "QZ" + suffix
 	switch padKind {
-	case 2:
+	case 2, 5:
 		want = pad + want
 	case 3:
 		want = "AQ" + escape.HTML(payload) + "QZ" + pad + suffix
@@ -567,10 +588,10 @@ func c12Levels(tier string) []core.Level {
 	}
 	names := append(all(len(c12Names)), -1, -2, -3, -4, -5)
 	lv := []core.Level{
-		{Name: "31 print positions x variable x all 13 payloads x all 24 template names x no modifier", Gen: func(emit func(core.Case)) {
+		{Name: "37 print positions x variable x all 13 payloads x all 24 template names x no modifier", Gen: func(emit func(core.Case)) {
 			gen(all(len(c12Payloads)), []int{0}, []int{0}, names, emit)
 		}},
-		{Name: "host-written loaders whose templates report another name than the one asked for (a record key, nothing, a revision suffix, a .txt blob, a cache path ending in .js): 31 positions x 3 payloads x 24 names x {none, escape} - the content type is the requested name's", Gen: func(emit func(core.Case)) {
+		{Name: "host-written loaders whose templates report another name than the one asked for (a record key, nothing, a revision suffix, a .txt blob, a cache path ending in .js): 37 positions x 3 payloads x 24 names x {none, escape} - the content type is the requested name's", Gen: func(emit func(core.Case)) {
 			for pos := 0; pos < c12Positions; pos++ {
 				for _, pi := range []int{0, 4, 8} {
 					for ni := range c12Names {
@@ -583,7 +604,7 @@ func c12Levels(tier string) []core.Level {
 				}
 			}
 		}},
-		{Name: "other environments in the process (a mail environment whose escape filter passes everything through, a core environment with an AutoEscapeExtension of its own escapers) built and used after the environment under test was created: 31 positions x 3 payloads x 19 names x {none, escape, raw}", Gen: func(emit func(core.Case)) {
+		{Name: "other environments in the process (a mail environment whose escape filter passes everything through, a core environment with an AutoEscapeExtension of its own escapers) built and used after the environment under test was created: 37 positions x 3 payloads x 19 names x {none, escape, raw}", Gen: func(emit func(core.Case)) {
 			for pos := 0; pos < c12Positions; pos++ {
 				for _, pi := range []int{0, 4, 8} {
 					for ni := range c12Names {
@@ -603,7 +624,7 @@ func c12Levels(tier string) []core.Level {
 				}
 			}
 		}},
-		{Name: "inline templates of every size: 0..320 bytes and 500, 1000, 4096, 70000 bytes of padding inside the print's delimiters (blanks, line breaks), in front of the print, behind it, or as a list laid out over many lines in a last tag x 6 endings that look like file names x 3 payloads: html all the same", Gen: func(emit func(core.Case)) {
+		{Name: "inline templates of every size: 0..320 bytes and 500, 1000, 4096, 70000 bytes of padding inside the print's delimiters (blanks, line breaks), in front of the print, behind it, after text whose braces open no delimiter (10 texts), or as a list laid out over many lines in a last tag x 6 endings that look like file names x 3 payloads: html all the same", Gen: func(emit func(core.Case)) {
 			ns := []int{500, 1000, 4096, 70000}
 			for n := 0; n <= 320; n++ {
 				ns = append(ns, n)
@@ -616,12 +637,17 @@ func c12Levels(tier string) []core.Level {
 						}
 					}
 				}
+				for n := range c12BracePrefix {
+					for si := 0; si < 6; si++ {
+						emit(core.Case{Fam: "inlinesize", N: []int{pi, 5, n, si}})
+					}
+				}
 			}
 		}},
-		{Name: "31 positions x 6 value forms x 13 payloads x 24 names x 14 modifiers (full product)", Gen: func(emit func(core.Case)) {
+		{Name: "37 positions x 6 value forms x 13 payloads x 24 names x 14 modifiers (full product)", Gen: func(emit func(core.Case)) {
 			gen(all(len(c12Payloads)), all(len(c12Forms)), all(c12Mods), names, emit)
 		}},
-		{Name: "values that are not strings: 31 positions x {variable, function result} x 13 payloads carried as the String() of 9 Go types (named int, int64, uint8, bool true/false, float64, float32; struct; pointer) x 24 names x {none, raw, escape, escape('html'), escape(own type)}", Gen: func(emit func(core.Case)) {
+		{Name: "values that are not strings: 37 positions x {variable, function result} x 13 payloads carried as the String() of 9 Go types (named int, int64, uint8, bool true/false, float64, float32; struct; pointer) x 24 names x {none, raw, escape, escape('html'), escape(own type)}", Gen: func(emit func(core.Case)) {
 			for pos := 0; pos < c12Positions; pos++ {
 				for _, f := range []int{0, 2} {
 					for pi := range c12Payloads {
@@ -638,7 +664,7 @@ func c12Levels(tier string) []core.Level {
 		}},
 	}
 	if thorough(tier) {
-		lv = append(lv, core.Level{Name: "payload pairs: 31 positions x variable x every concatenation of two payloads x 24 names x {none, escape, escape(own type)}", Gen: func(emit func(core.Case)) {
+		lv = append(lv, core.Level{Name: "payload pairs: 37 positions x variable x every concatenation of two payloads x 24 names x {none, escape, escape(own type)}", Gen: func(emit func(core.Case)) {
 			np := len(c12Payloads)
 			for pos := 0; pos < c12Positions; pos++ {
 				for p1 := 0; p1 < np; p1++ {
@@ -660,7 +686,7 @@ func init() {
 	core.Register(&core.Check{
 		ID:       "C12",
 		Category: "exploration",
-		Rule: "full product of 31 print positions (top level, if / else / elseif branch, for body, for-else, block, nested block, overriding block of a child, block via parent(), inherited block, included template, embedded template, embed override block, set-capture body, filter section, macro body, imported macro; macro result / capture / parent() / block() printed with |raw; html page including a js partial, js child overriding / inheriting a block of an html base; two blocks of one name in one file: two embeds, a block containing an embed, an override embedding first, embeds at two levels; macros defined in an extending template, imported elsewhere through import / from) x 6 value forms (variable, attribute, function result, concatenation, conditional, interpolation) x 13 payloads (< > \" ' & </script> \\ ; newline, multi-byte, astral, mixed) x 24 template names (html, js, css, txt with and without .twig, no extension, unknown extension, trailing dot, inline sources without a dot, with dots, and ending in '.txt' / '.js' / '.css.twig'; names with several dots or a dotted directory) x 14 modifiers (none, raw, escape, escape('html'), escape(own type), escape('js'), escape('txt'), a chain of unknown strategies, value marked safe for the same / another type, marked safe for another type and then re-wrapped for the own type, marked safe for a user-defined type only, marked safe with an empty list of types, a user-defined SafeValue that is safe for nothing), in a twig.New environment; and the payloads carried as the String() of 9 non-string Go types (named numeric and bool kinds, struct, pointer). " +
+		Rule: "full product of 37 print positions (top level, if / else / elseif branch, for body, for-else, loops with an inline condition and their else branch, key-value loops, branches inside loops inside branches, block, nested block, overriding block of a child, block via parent(), inherited block, included template, embedded template, embed override block, set-capture body, filter section, macro body, imported macro; macro result / capture / parent() / block() printed with |raw; html page including a js partial, js child overriding / inheriting a block of an html base; two blocks of one name in one file: two embeds, a block containing an embed, an override embedding first, embeds at two levels; macros defined in an extending template, imported elsewhere through import / from) x 6 value forms (variable, attribute, function result, concatenation, conditional, interpolation) x 13 payloads (< > \" ' & </script> \\ ; newline, multi-byte, astral, mixed) x 24 template names (html, js, css, txt with and without .twig, no extension, unknown extension, trailing dot, inline sources without a dot, with dots, and ending in '.txt' / '.js' / '.css.twig'; names with several dots or a dotted directory) x 14 modifiers (none, raw, escape, escape('html'), escape(own type), escape('js'), escape('txt'), a chain of unknown strategies, value marked safe for the same / another type, marked safe for another type and then re-wrapped for the own type, marked safe for a user-defined type only, marked safe with an empty list of types, a user-defined SafeValue that is safe for nothing), in a twig.New environment; and the payloads carried as the String() of 9 non-string Go types (named numeric and bool kinds, struct, pointer). " +
 			"Oracle: expected content type = registered escaper of the extension, none for txt, html otherwise; a directly printed value must decode (decoder of that context) to the payload and lie in the context's inert alphabet: escaped exactly once; raw and same-type safe values verbatim; values reaching the output through a capture / macro result / parent() must be inert. distinct = distinct configuration; non-trivial = an assertion was made",
 		Assumptions: []string{
 			"for an explicit escape of another type (html inside js/css, js inside css, txt or an unknown strategy anywhere) 'exactly once' is ambiguous; only inertness for the template's own type is asserted, which the statement pins under either reading",
